@@ -1733,7 +1733,9 @@ class Network(Cached):
         :rtype: 1d numpy array [node] of floats >= 0
         """
         k = self.degree() * 1.0
-        return self.undirected_adjacency() * k / k[k != 0]
+        nbk = self.undirected_adjacency() * k
+        # isolated nodes have no neighbours, their average is set to zero
+        return np.divide(nbk, k, out=np.zeros_like(nbk), where=k != 0)
 
     @Cached.method(name="maximum neighbours' degrees")
     def max_neighbors_degree(self):
